@@ -617,6 +617,10 @@ def _discharged_locally(ctx: Any, f: FuncInfo, node: ast.AST, cont: ast.AST, key
     for t in []:
         if False:
             pass
+    # stored-if-absent just before: a dominating `c.setdefault(k, ...)` with the same key
+    for t in cfg.nodes:
+        if t is not host and cfg.dominates(t, host) and any(call_name(c_) == 'setdefault' and isinstance(c_.func, ast.Attribute) and same_cont(c_.func.value) and c_.args and norm(c_.args[0]) == ktext for c_ in t.calls()):
+            return True, f'`{ktext}` is stored if absent (setdefault) before the access'
     # present-or-stored: `if k not in c: c[k] = ...` before the access (the absent arm stores the key)
     for t in cfg.nodes:
         tt, neg = t.ast, False
